@@ -4,7 +4,7 @@
     function [crc] (hash/crc32 in the code). *)
 From Coq Require Import NArith List.
 From AGH Require Import Base.Run Model.RuleListParser Model.Refresh Proofs.RuleListParser Proofs.RuleListWrite
-  Proofs.Refresh Proofs.RefreshEngine Proofs.RefreshWrite Proofs.RefreshRestart Proofs.RefreshWhole Proofs.RefreshOverlap.
+  Proofs.Refresh Proofs.RefreshEngine Proofs.RefreshWrite Proofs.RefreshRestart Proofs.RefreshWhole Proofs.RefreshOverlap Model.FilterQueue Model.RefreshQueue Proofs.RefreshQueue.
 Import ListNotations.
 Local Open Scope N_scope.
 
@@ -797,3 +797,75 @@ Example C15_overlapped_disable_satisfiable :
   verdict (r_engine Gated.st_on_old) [112;50] = 0 /\
   fget 1 (r_files Gated.st_later_old) = None.
 Proof. exact gated_example. Qed.
+
+(** ** Rules in force after set_url / add_url when rebuild requests queue up
+    (round 9)
+
+    The handlers ask for the rebuild asynchronously: a snapshot of the SET of
+    enabled lists goes into a one-slot channel (C01's Model/FilterQueue.v:
+    drain, then send), the updates loop builds the engines from it, reading
+    the files when it runs.  From ANY state of the queue (a stale task
+    waiting, the loop busy with one, engines out of date), after any history of
+    passes, set_url calls, other requests and loop steps: once
+    EnableFilters(true) has been called and the loop has served the queue, the
+    engines are those a rebuild from the lists and files of the moment gives;
+    nothing is queued, the loop is idle, lists and files are untouched. *)
+Theorem C15_queued_rebuild_follows_last_request : forall crc, follows_last_request crc enq_drain_send.
+Proof. exact drain_send_follows_last_request. Qed.
+Print Assumptions C15_queued_rebuild_follows_last_request.
+
+(** Hence a set_url / add_url call served asynchronously ends where the
+    synchronous [set_props] does (entries, files, engines), whatever was
+    queued: [C15_enable_puts_rules_in_force], [C15_url_change_puts_rules_in_force],
+    [C15_disable_takes_rules_out] speak about its result. *)
+Theorem C15_async_set_ends_as_sync : forall crc allow u name nurl en o (s : qr) st',
+  set_props crc allow u name nurl en o (qr_st s) = (true, false, st') ->
+  let '(rs, er, s1) := set_async crc enq_drain_send allow u name nurl en o s in
+  rs = true /\ er = false /\
+  qr_st (quiesce s1) = st' /\ qr_chan (quiesce s1) = [] /\ qr_busy (quiesce s1) = None.
+Proof. exact async_set_ends_as_sync. Qed.
+Print Assumptions C15_async_set_ends_as_sync.
+
+Theorem C15_async_set_quiet : forall crc allow u name nurl en o (s : qr) rs er st',
+  set_props crc allow u name nurl en o (qr_st s) = (rs, er, st') -> (negb er && rs)%bool = false ->
+  snd (set_async crc enq_drain_send allow u name nurl en o s)
+  = mkQR (with_engine (r_engine (qr_st s)) st') (qr_chan s) (qr_busy s).
+Proof. exact async_set_quiet. Qed.
+Print Assumptions C15_async_set_quiet.
+
+(** A later pass in which every source fails changes nothing. *)
+Theorem C15_failing_pass_keeps_queue_state : forall crc enq b a force due oc (s : qr),
+  (forall l, In l (r_block (qr_st s) ++ r_allow (qr_st s)) -> fails crc (oc (f_id l))) ->
+  qstep crc enq s (QRefresh b a force due oc) = s.
+Proof. exact failing_pass_after_loop. Qed.
+Print Assumptions C15_failing_pass_keeps_queue_state.
+
+(** A task built from the current lists, run on the current files, is a
+    synchronous rebuild. *)
+Theorem C15_task_of_current_lists_is_rebuild : forall st,
+  build (take_ids st) (r_files st) = rebuild (r_block st) (r_allow st) (r_files st).
+Proof. exact build_take. Qed.
+Print Assumptions C15_task_of_current_lists_is_rebuild.
+
+(** The non-blocking send that keeps the OLDER task is refuted. *)
+Theorem C15_nonblocking_send_refuted : ~ follows_last_request crc32_update enq_nonblocking.
+Proof. exact nonblocking_send_does_not_follow. Qed.
+Print Assumptions C15_nonblocking_send_refuted.
+
+Example C15_queued_rebuild_satisfiable :
+  fget 1 (r_files (qr_st Queued.s_new)) = Some RExamples.good /\
+  map f_enabled (r_block (qr_st Queued.s_new)) = [true] /\
+  map f_count (r_block (qr_st Queued.s_new)) = [1] /\
+  qr_st Queued.s_new = qr_st Queued.s_old /\
+  qr_chan Queued.s_new = [([], [11])] /\ qr_chan Queued.s_old = [([1], [11])] /\
+  lookup 1 (e_block (r_engine (qr_st (quiesce Queued.s_new)))) = None /\
+  lookup 1 (e_block (r_engine (qr_st (quiesce Queued.s_old)))) = Some RExamples.good /\
+  lookup 1 (e_block (r_engine (qr_st (Queued.after enq_nonblocking Queued.s_new)))) = None /\
+  lookup 1 (e_block (r_engine (qr_st
+    (qstep crc32_update enq_nonblocking (quiesce Queued.s_new) (QRefresh true true true RExamples.all Queued.failing))))) = None /\
+  lookup 1 (e_block (r_engine (qr_st
+    (qstep crc32_update enq_nonblocking (quiesce Queued.s_new)
+       (QRefresh true true true RExamples.all (fun _ => OBody RExamples.good false)))))) = None /\
+  qrun crc32_update enq_nonblocking (qidle SetExamples.st_off) [QTouch; QLoop; QSet false 1 [120] 1 true (OBody RExamples.good false); QLoop]
+  = qrun crc32_update enq_drain_send (qidle SetExamples.st_off) [QTouch; QLoop; QSet false 1 [120] 1 true (OBody RExamples.good false); QLoop].
+Proof. exact queued_example. Qed.
